@@ -154,6 +154,9 @@ pub fn unsafe_like_ok(info: &crate::world::Info, board: &Board, ml: &MoveLike) -
         MoveLike::Unchecked(r) => {
             info.legal.contains(r) && move_of(r).map_or(false, |mv| mv.validate(board).is_ok())
         }
+        // the null move is always within TryUnchecked's contract ("semilegal or null": refused if
+        // and only if the mover is in check)
+        MoveLike::TryUnchecked(r) if r.kind == rm::K_NULL => true,
         MoveLike::TryUnchecked(r) => {
             info.pseudo.contains(r)
                 && move_of(r).map_or(false, |mv| owlchess::movegen::semilegal::gen_all(board).contains(&mv))
